@@ -500,6 +500,33 @@ NOM_CLASSES = {'space1': ' \t', 'space0': ' \t', 'multispace1': ' \t\r\n', 'mult
                'hex_digit1': '0123456789abcdefABCDEF'}
 
 
+def trivia_alphabet(g):
+    """characters the trivia function (the parser repeated by ws()) can consume as blanks, from its raw lexers; None if not derivable"""
+    wsf = g.fns.get('ws')
+    role = None
+    if wsf is not None and wsf.ir is not None:
+        for node in grammar.iter_ir(wsf.ir):
+            if node['op'] == 'many0' and node['p'].get('op') == 'ref':
+                role = node['p']['name']
+    if role is None or role not in g.fns:
+        return None
+    acc = set()
+    f = g.fns[role]
+    if f.ir is None:
+        return None
+    for node, look in grammar.iter_ir_ctx(f.ir):
+        if look or node['op'] != 'prim' or not node.get('consuming'):
+            continue
+        nm = node['name']
+        if nm in NOM_CLASSES:
+            acc |= set(NOM_CLASSES[nm])
+        elif nm in ('is_a', 'one_of', 'char') and node['args'] and sx.lit_str(node['args'][0]) is not None:
+            acc |= set(sx.lit_str(node['args'][0]))
+        elif nm in ('is_a', 'one_of', 'char') and node['args'] and node['args'][0].get('k') == 'lit' and node['args'][0].get('t') == 'char':
+            acc |= set(node['args'][0]['v'])
+    return acc & set(' \t\n\r\x0c\x0b') or None
+
+
 def g14(ctx):
     """Character classes of the raw lexers are statically known sets; the trivia function accepts only IEEE white space."""
     g = ctx.grammar
